@@ -9,7 +9,7 @@ design-vector-space array with the counter variable.
 import ast
 
 from ..model import AnalysisError, norm, walk_no_nested
-from ..astutil import short
+from ..astutil import short, call_name
 from ..report import fkey
 from .common import *
 
@@ -34,16 +34,56 @@ def _loops(fn):
     return out
 
 
+def _spaces(prog, fn, u):
+    """(choice-space names, design-vector-space names) valid inside unit function u of fn: the tables, plus
+    parameters of a private helper bound to such a name at its call site, plus local aliases / same-length lists."""
+    choice, dv = set(CHOICE_SPACE), set(DV_SPACE)
+    if u is not fn:
+        for caller in unit_functions(prog, fn):
+            for c in calls(caller):
+                if call_name(c) != u.name:
+                    continue
+                cchoice, cdv = _spaces(prog, fn, caller) if caller is not u else (choice, dv)
+                hp = [q for q in u.params if q not in ('self', 'cls')] if isinstance(c.func, ast.Attribute) else \
+                    list(u.params)
+                bind = list(zip(hp, c.args)) + [(k.arg, k.value) for k in c.keywords if k.arg]
+                for q, a in bind:
+                    if norm(a) in cchoice:
+                        choice.add(q)
+                    elif norm(a) in cdv:
+                        dv.add(q)
+    for _ in range(2):
+        for a in walk_fn(u):
+            if not (isinstance(a, ast.Assign) and isinstance(a.targets[0], ast.Name)):
+                continue
+            t, v = a.targets[0].id, a.value
+            if norm(v) in choice:
+                choice.add(t)
+            elif norm(v) in dv:
+                dv.add(t)
+            elif isinstance(v, ast.ListComp) and len(v.generators) == 1 and \
+                    norm(v.generators[0].iter).startswith('range(len('):
+                inner = norm(v.generators[0].iter)[len('range(len('):-2]
+                if inner in choice or inner.endswith('selection_choice_nodes'):
+                    choice.add(t)
+                elif inner in dv:
+                    dv.add(t)
+    return choice, dv
+
+
 def check_index_spaces(ctx, fn_keys, rule='A21'):
     n = 0
     for key in fn_keys:
         fn = ctx.fn(key)
-        loops = _loops(fn)
+        unit = unit_functions(ctx.prog, fn)
+        loops = [(u,) + lp for u in unit for lp in _loops(u)]
         if not loops:
             if fn.name == '_update_comb_fixed_mask':
                 continue        # decided by check_translation below
             raise AnalysisError(f'{key}: no loop over enumerate(_sel_choice_idx_map) found')
-        for counter, elem, scope in loops:
+        for u, counter, elem, scope in loops:
+            ctx.touch(u)
+            choice_space, dv_space = _spaces(ctx.prog, fn, u)
             for sub in ast.walk(scope):
                 if not isinstance(sub, ast.Subscript) or not isinstance(sub.slice, ast.Name):
                     continue
@@ -51,24 +91,24 @@ def check_index_spaces(ctx, fn_keys, rule='A21'):
                 idx = sub.slice.id
                 if idx not in (counter, elem):
                     continue
-                if base in CHOICE_SPACE:
+                if base in choice_space:
                     want, space = elem, 'choice'
-                elif base in DV_SPACE:
+                elif base in dv_space:
                     want, space = counter, 'design-vector'
                 else:
                     continue
                 n += 1
-                ctx.ob(rule, fkey(fn, rule, f'{base}[{idx}]'), idx == want, f'{fn.module.relpath}:{sub.lineno}',
+                ctx.ob(rule, fkey(u, rule, f'{base}[{idx}]'), idx == want, f'{u.module.relpath}:{sub.lineno}',
                        f'`{base}` is indexed in {space} space: inside `for {counter}, {elem} in '
                        f'enumerate(_sel_choice_idx_map)` it takes `{want}`', short(sub))
             # membership tests against the fixed-value table use the design-vector index
             for sub in ast.walk(scope):
                 if isinstance(sub, ast.Compare) and len(sub.ops) == 1 and isinstance(sub.ops[0], (ast.In, ast.NotIn)) \
-                        and norm(sub.comparators[0]) in DV_SPACE and isinstance(sub.left, ast.Name) and \
+                        and norm(sub.comparators[0]) in dv_space and isinstance(sub.left, ast.Name) and \
                         sub.left.id in (counter, elem):
                     n += 1
-                    ctx.ob(rule, fkey(fn, rule, f'{sub.left.id} in {norm(sub.comparators[0])}'),
-                           sub.left.id == counter, f'{fn.module.relpath}:{sub.lineno}',
+                    ctx.ob(rule, fkey(u, rule, f'{sub.left.id} in {norm(sub.comparators[0])}'),
+                           sub.left.id == counter, f'{u.module.relpath}:{sub.lineno}',
                            f'the fixed-value table is keyed by the design-vector index `{counter}`', short(sub))
     return n
 
